@@ -44,6 +44,10 @@ fn main() {
         let lf = PLax { open: f.clone(), quot: (1..f.nodes.len()).map(|v| (v, v - 1)).take(2).collect() };
         check_pair(&lf, &PLax::strict(g.clone()), loc)
     }).heavy());
+    // round trips on large diagrams (sizes 33 .. 129)
+    let sizes: Vec<usize> = if ctx.quick() { vec![33, 65] } else { vec![33, 64, 65, 129] };
+    let big: Vec<_> = ohmc::props::structured::shapes_at(&sizes, false).into_iter().map(|x| x.1).collect();
+    ctx.run_slice(Slice::new(format!("round-trips-structured-large[sizes {:?}: {} diagrams]", sizes, big.len()), big.len() as u64, |i, loc| check_roundtrip_strict(&big[i as usize], loc)));
     let meta = Meta {
         rule: "every strict diagram (from_strict/to_strict round trips as exact data, both directions); every ordered pair of label-consistent lax diagrams with pending unifications (compose defined iff types match, lax_compose iff arities match, both strictify to the strict composite up to iso; tensor; tensor_assign / append / coproduct_assign equal the pure forms as data); every label-consistent lax diagram (dagger, to_strict vs the reference quotient); all pairs of object lists (identity, twist, singleton); all cospans (spider)".into(),
         bounds: "round trips: <=3 nodes, <=1-2 edges; pairs: <=2 nodes, <=1 edge, interfaces <=2, <=1 (quick) / 2 pending pairs; singles: <=3 nodes, <=2 pending pairs; object lists <=3; cospans <=3 nodes with legs <=3".into(),
